@@ -1,4 +1,257 @@
-use crate::core::{Ctx, Outcome};
-use serde_json::Value;
-pub fn run(_ctx: &Ctx) -> Outcome { unimplemented!() }
-pub fn replay(_ctx: &Ctx, _r: &Value) -> i32 { 2 }
+//! C05 — the info-hash is the SHA-1 of the exact byte span of the top-level "info" value.
+//! E-ENUM over a grammar of metainfo documents; oracle = the harness's own span parser.
+
+use crate::core::{self, Ctx, Outcome};
+use crate::refb;
+use rdest::Metainfo;
+use serde_json::{json, Value};
+
+/// Values that may sit next to `info` in the top-level dictionary.
+const V_SHAPES: [(&str, &[u8]); 5] = [
+    ("int", b"i7e"),
+    ("str-spelled-4:info", b"6:4:info"),
+    ("list-with-dict-with-info", b"ld4:infoi1eee"),
+    ("dict-with-info", b"d4:infoi1ee"),
+    ("dict-nesting-dict-with-info", b"d1:xd4:infod1:yi2eeee"),
+];
+
+fn pieces20() -> Vec<u8> {
+    // binary on purpose: contains 'e', ':', 'd', digits, NUL and 0xff
+    let mut p = b"e:d0i\x00\xff4:info".to_vec();
+    while p.len() < 20 {
+        p.push(0x80 + p.len() as u8);
+    }
+    p
+}
+
+fn bstr(s: &[u8]) -> Vec<u8> {
+    let mut v = s.len().to_string().into_bytes();
+    v.push(b':');
+    v.extend_from_slice(s);
+    v
+}
+
+/// The info dictionaries of the alphabet (all acceptable to a BEP3 client).
+fn info_variants() -> Vec<(&'static str, Vec<u8>)> {
+    let p = bstr(&pieces20());
+    let cat = |parts: &[&[u8]]| parts.concat();
+    vec![
+        ("canonical", cat(&[b"d6:lengthi5e4:name1:n12:piece lengthi5e6:pieces", &p, b"e"])),
+        ("reversed-keys", cat(&[b"d6:pieces", &p, b"12:piece lengthi5e4:name1:n6:lengthi5ee"])),
+        ("extra-keys", cat(&[b"d6:lengthi5e4:name1:n12:piece lengthi5e6:pieces", &p, b"7:privatei1e4:infod1:qi3ee6:sourcele", b"e"])),
+        ("leading-zero-lengths", cat(&[b"d06:lengthi5e004:name01:n12:piece lengthi5e6:pieces0", &p, b"e"])),
+        ("multi-file", cat(&[b"d5:filesld6:lengthi2e4:path1:aed6:lengthi3e4:path1:bee4:name1:n12:piece lengthi5e6:pieces", &p, b"e"])),
+        ("nested-info-inside-info", cat(&[b"d4:infoi9e6:lengthi5e4:name1:n12:piece lengthi5e6:pieces", &p, b"e"])),
+    ]
+}
+
+const TRAILERS: [&[u8]; 4] = [b"", b"i1e", b"4:info", b"d4:infoi7ee"];
+const INFO_KEYS: [&[u8]; 2] = [b"4:info", b"04:info"];
+const V_KEYS: [&[u8]; 4] = [b"a", b"comment", b"infoo", b"z"];
+
+#[derive(Clone, Debug)]
+pub struct Doc {
+    pub bytes: Vec<u8>,
+    pub desc: String,
+}
+
+fn orders(entries: Vec<(Vec<u8>, Vec<u8>, bool)>) -> Vec<(&'static str, Vec<(Vec<u8>, Vec<u8>, bool)>)> {
+    // entries: (key, raw "key value" bytes, is_info)
+    let mut sorted = entries.clone();
+    sorted.sort_by(|a, b| a.0.cmp(&b.0));
+    let mut rev = sorted.clone();
+    rev.reverse();
+    let mut first: Vec<_> = sorted.iter().filter(|e| e.2).cloned().collect();
+    first.extend(sorted.iter().filter(|e| !e.2).cloned());
+    let mut last: Vec<_> = sorted.iter().filter(|e| !e.2).cloned().collect();
+    last.extend(sorted.iter().filter(|e| e.2).cloned());
+    let mut out: Vec<(&'static str, Vec<_>)> = vec![("sorted", sorted)];
+    for (n, o) in [("reversed", rev), ("info-first", first), ("info-last", last)] {
+        if !out.iter().any(|(_, x)| x.iter().map(|e| &e.0).eq(o.iter().map(|e| &e.0))) {
+            out.push((n, o));
+        }
+    }
+    out
+}
+
+pub fn documents(with_announce: bool) -> Vec<Doc> {
+    let infos = info_variants();
+    let mut docs = vec![];
+    for mask in 0..(1u32 << V_KEYS.len()) {
+        let present: Vec<usize> = (0..V_KEYS.len()).filter(|i| mask >> i & 1 == 1).collect();
+        let combos = (V_SHAPES.len() as u32).pow(present.len() as u32);
+        for combo in 0..combos {
+            for (iname, info) in infos.iter() {
+                for ikey in INFO_KEYS {
+                    let mut entries: Vec<(Vec<u8>, Vec<u8>, bool)> = vec![];
+                    if with_announce {
+                        entries.push((b"announce".to_vec(), b"8:announce3:URL".to_vec(), false));
+                    }
+                    let mut c = combo;
+                    let mut vdesc = vec![];
+                    for &ki in &present {
+                        let shape = V_SHAPES[(c % V_SHAPES.len() as u32) as usize];
+                        c /= V_SHAPES.len() as u32;
+                        let mut raw = bstr(V_KEYS[ki]);
+                        raw.extend_from_slice(shape.1);
+                        entries.push((V_KEYS[ki].to_vec(), raw, false));
+                        vdesc.push(format!("{}={}", String::from_utf8_lossy(V_KEYS[ki]), shape.0));
+                    }
+                    let mut raw = ikey.to_vec();
+                    raw.extend_from_slice(info);
+                    entries.push((b"info".to_vec(), raw, true));
+                    for (oname, order) in orders(entries) {
+                        for (ti, trailer) in TRAILERS.iter().enumerate() {
+                            let mut bytes = vec![b'd'];
+                            for e in &order {
+                                bytes.extend_from_slice(&e.1);
+                            }
+                            bytes.push(b'e');
+                            bytes.extend_from_slice(trailer);
+                            docs.push(Doc {
+                                bytes,
+                                desc: format!(
+                                    "info={} key={} order={} others=[{}] trailer#{}",
+                                    iname,
+                                    String::from_utf8_lossy(ikey),
+                                    oname,
+                                    vdesc.join(","),
+                                    ti
+                                ),
+                            });
+                        }
+                    }
+                }
+            }
+        }
+    }
+    docs
+}
+
+/// SHA-1 of the exact span of the value of the top-level "info" key of the first top-level
+/// dictionary (the statement's definition), or None if the document has no such thing.
+pub fn reference_hash(doc: &[u8]) -> Option<[u8; 20]> {
+    let vals = refb::parse_all_spanned(doc).ok()?;
+    let top = vals.iter().find(|v| matches!(v.v, refb::V::Dict(_)))?;
+    let mut found = None;
+    for (k, span) in &top.entries {
+        if k == b"info" {
+            found = Some(span);
+        }
+    }
+    let span = found?;
+    Some(core::sha1(&doc[span.start..span.end]))
+}
+
+#[derive(PartialEq, Debug)]
+pub enum Res {
+    Rejected,
+    Agree,
+    Violation(&'static str, String),
+}
+
+pub fn check_doc(doc: &[u8]) -> Res {
+    match core::catch(|| Metainfo::from_bencode(doc)) {
+        Err(p) => Res::Violation("metainfo-panic", format!("document {}: {}", core::show(doc), p)),
+        Ok(Err(_)) => Res::Rejected,
+        Ok(Ok(m)) => match reference_hash(doc) {
+            None => Res::Violation(
+                "accepted-without-top-level-info",
+                format!("document {} accepted but has no top-level info value", core::show(doc)),
+            ),
+            Some(h) => {
+                if &h == m.info_hash() {
+                    Res::Agree
+                } else {
+                    // which span was hashed instead? name the nested-key class precisely
+                    let class = nested_class(doc, m.info_hash());
+                    Res::Violation(
+                        class,
+                        format!(
+                            "document {}: info_hash {} but SHA1(top-level info value) = {}",
+                            core::show(doc),
+                            core::hex(m.info_hash()),
+                            core::hex(&h)
+                        ),
+                    )
+                }
+            }
+        },
+    }
+}
+
+/// If the reported hash is the SHA-1 of the value of some *nested* key spelled "info" that occurs
+/// before the top-level one, that is the specific known defect class.
+fn nested_class(doc: &[u8], got: &[u8; 20]) -> &'static str {
+    fn walk(doc: &[u8], s: &refb::Spanned, depth: usize, got: &[u8; 20], hit: &mut bool) {
+        for (k, v) in &s.entries {
+            if k == b"info" && depth > 0 && &core::sha1(&doc[v.start..v.end]) == got {
+                *hit = true;
+            }
+            walk(doc, v, depth + 1, got, hit);
+        }
+    }
+    let mut hit = false;
+    if let Ok(vals) = refb::parse_all_spanned(doc) {
+        for v in &vals {
+            walk(doc, v, 0, got, &mut hit);
+        }
+    }
+    if hit {
+        "hash-of-nested-info-key"
+    } else {
+        "info-hash-mismatch"
+    }
+}
+
+pub fn run(ctx: &Ctx) -> Outcome {
+    let mut docs = documents(true);
+    let without = documents(false);
+    // documents without announce must be rejected; a thinned family is enough to count them
+    docs.extend(without.into_iter().step_by(ctx.tier.pick(50, 5)));
+    let results = core::par_map(&docs, |_| core::set_quiet_panics(true), |_, _, d| check_doc(&d.bytes));
+    let mut accepted = 0u64;
+    let mut rejected = 0u64;
+    for (d, r) in docs.iter().zip(results.iter()) {
+        match r {
+            Res::Rejected => rejected += 1,
+            Res::Agree => accepted += 1,
+            Res::Violation(class, summary) => {
+                accepted += 1;
+                ctx.violation(class, format!("{} [{}]", summary, d.desc), json!({"hex": core::hex(&d.bytes), "text": core::show(&d.bytes), "desc": d.desc}));
+            }
+        }
+    }
+    let mut o = Outcome::new("exploration");
+    o.set("evaluations", json!(docs.len()));
+    o.set("distinct_nontrivial", json!(accepted));
+    o.set("accepted", json!(accepted));
+    o.set("rejected", json!(rejected));
+    o.set("rule", json!("documents = one top-level dictionary {announce, any subset of the keys a/comment/infoo/z each with one of 5 value shapes (3 of them contain a nested key spelled info), info} in 4 key orders (sorted, reversed, info first, info last) x 6 info dictionaries (canonical, reversed keys, extra keys incl. a nested info key, leading-zero string lengths, multi-file, info key inside info) x info key spelled 4:info or 04:info x 4 trailers after the dictionary; plus a thinned family without announce (must be rejected). All documents are distinct byte strings; non-trivial = accepted by Metainfo::from_bencode, for which the hash is compared."));
+    if (accepted as f64) < 0.4 * docs.len() as f64 {
+        ctx.machinery_error(format!("vacuity: only {} of {} documents accepted", accepted, docs.len()));
+    }
+    let picks = ctx.seeded_pick(docs.len(), 4);
+    o.set("samples", Value::Array(picks.iter().map(|i| json!({"doc": core::show(&docs[*i].bytes), "desc": docs[*i].desc, "result": format!("{:?}", match &results[*i] { Res::Violation(c, _) => format!("violation:{}", c), r => format!("{:?}", r) })})).collect()));
+    o.set("exhaustive", json!(true));
+    o.assume("reference span parser refb.rs; duplicate top-level keys are outside the alphabet (the statement does not define them)");
+    o
+}
+
+pub fn replay(_ctx: &Ctx, r: &Value) -> i32 {
+    let hexs = r["hex"].as_str().unwrap_or("");
+    let bytes: Vec<u8> = (0..hexs.len() / 2).map(|i| u8::from_str_radix(&hexs[2 * i..2 * i + 2], 16).unwrap()).collect();
+    println!("document: {}", core::show(&bytes));
+    println!("reference SHA1(top-level info value): {:?}", reference_hash(&bytes).map(|h| core::hex(&h)));
+    println!("Metainfo::from_bencode(..).info_hash(): {:?}", core::catch(|| Metainfo::from_bencode(&bytes).map(|m| core::hex(m.info_hash()))));
+    match check_doc(&bytes) {
+        Res::Violation(class, s) => {
+            println!("VIOLATION property=C05 replay=<this file>\n  class={} {}", class, s);
+            1
+        }
+        other => {
+            println!("holds for this document ({:?})", other);
+            0
+        }
+    }
+}
